@@ -78,7 +78,21 @@ def l3_table_c01(T, tvs, tier):
     pairs = [["t", a, b] for a in items for b in items if not (a == "..." and b == "...")]
     for x in sl + pairs:
         out.append(("getitem %r" % (x,), lambda arr, x=x: l3.tl(arr[to_py(x)]), lambda T, tvs, x=x: refops.getitem(T, tvs, to_ref(x))))
+    # the index itself partitioned, at boundaries that differ from the array's: full-length masks and jagged indexes
+    if n >= 2:
+        for x in sl:
+            if isinstance(x, list) and ((x[0] == "a" and x[2] == "bool" and len(x[1]) == n) or x[0] == "jag"):
+                for cut in sorted(set([0, 1, n - 1, n])):
+                    out.append(("getitem-pidx@%d %r" % (cut, x), lambda arr, x=x, cut=cut: l3.tl(arr[_partitioned_index(x, cut)]),
+                                lambda T, tvs, x=x: refops.getitem(T, tvs, to_ref(x))))
     return out
+
+
+def _partitioned_index(x, cut):
+    import l3
+    ak = l3.ak()
+    whole = ak.Array(np.array(x[1], dtype=np.bool_)) if x[0] == "a" else ak.Array(x[1])
+    return ak.partitioned([whole[:cut], whole[cut:]])
 
 
 def to_ref(sl):
@@ -176,6 +190,18 @@ def pair_items(n, T, tvs, tier):
     return out
 
 
+import findings  # noqa: E402
+
+
+@findings.predicate("c01_partitioned_multi")
+def _c01_partitioned_multi(v, params):
+    """KF-C01-6: tuple slices, multi-dimensional index arrays and jagged indexes of the wrong length on partitioned arrays"""
+    items = str(v.get("items", ""))
+    if items.startswith("pidx:"):
+        return False
+    return "+" in items or bool(v.get("adv_2d")) or (items == "jag" and v.get("failure") == "missing-error")
+
+
 class C01(e1.E1Check):
     id = "C01"
     types_quick = [I, var(I), var(var(I)), reg(2, I), reg(2, reg(2, I)), var(reg(2, I)), reg(2, var(I)), opt(I), var(opt(I)),
@@ -186,7 +212,7 @@ class C01(e1.E1Check):
                                     var(rec(("x", opt(I)), ("y", var(I)))), var(opt(S)), F, B, var(B),
                                     union(I, var(I)), var(union(I, S))]
     bounds_quick = dict(N=2, M=2, K=5, enc_k=1, state_cap=18, parts=2)
-    bounds_thorough = dict(N=3, M=2, K=8, enc_k=1, state_cap=150, parts=16)
+    bounds_thorough = dict(N=3, M=2, K=7, enc_k=1, state_cap=10, parts=16)
     rule = ("states = arrays of the type menu x physical encodings (<= enc_k non-canonical nodes); transitions = getitem with "
             "every single item of the full item alphabet (all ints, all start/stop/step ranges, ellipsis, newaxis, all small "
             "integer arrays incl. out-of-range and repeated, 2-d and narrow dtypes, all boolean masks and wrong lengths, "
@@ -207,9 +233,12 @@ class C01(e1.E1Check):
 
     def l3_signature(self, T, tvs, label):
         import ast
-        sl = ast.literal_eval(label[len("getitem "):])
+        pidx = label.startswith("getitem-pidx")
+        sl = ast.literal_eval(label[label.index(" ") + 1:])
         sig = {"op": "getitem"}
         sig.update(self.signature(T, tvs, None, None, "getitem", (sl,), None))
+        if pidx:
+            sig["items"] = "pidx:" + sig["items"]
         return sig
 
     def alphabet(self, T, tvs, tier):
